@@ -232,7 +232,7 @@ CHECKS = {
     },
     "C19": {
         "level": "exploration",
-        "rule": "two generators. (a) whole-schema objects: rapid.MakeCustom reflects over every field of apps/v1 StatefulSet and of the Advanced StatefulSet "
+        "rule": "three generators (the third: lists of 0-1501 stored sets read through the hijack client from a server that paginates like the API server - limit / continue, a continue token that expires once at a drawn page - by a caller that pages itself or not; the names returned must be the stored ones, in order). (a) whole-schema objects: rapid.MakeCustom reflects over every field of apps/v1 StatefulSet and of the Advanced StatefulSet "
                 "(metadata incl. managedFields, full PodTemplateSpec, claim templates, status), nil vs empty collections and nil vs non-nil optional "
                 "pointers included, with overrides that keep values JSON-representable (second-precision times, no pointer to a zero Time / empty "
                 "FieldsV1, well-formed quantities incl. non-canonical ones, consistent IntOrString, valid UTF-8 incl. non-ASCII). Oracles: "
@@ -247,6 +247,7 @@ CHECKS = {
         "legs": [
             {"test": "TestC19", "quick": {"checks": 480, "shards": 8}, "thorough": {"checks": 48000, "shards": 16}},
             {"test": "TestC19Ann", "quick": {"checks": 20000}, "thorough": {"checks": 1600000, "shards": 16}},
+            {"test": "TestC19List", "quick": {"checks": 40}, "thorough": {"checks": 800, "shards": 8}},
             {"test": "FuzzC19", "kind": "fuzz", "thorough": {"seconds": 180}},
         ],
         "floors": {"object-with->=10-populated-fields-and-an-empty-collection": 0.005, "annotation-codec-case": 0.5},
